@@ -242,6 +242,9 @@ class RefSimulation(object):
             raise ValueError('simshim: duration and log_times must be finite (myokit rejects them too)')
         if len(times) and (np.any(np.diff(times) < 0)):
             raise ValueError('simshim: log_times must be non-decreasing')
+        if not (np.all(np.isfinite(self._x)) and all(np.isfinite(v) for v in self._consts.values())):
+            # (CVODES fails on the first step; an explicit integrator would shrink its step for a long time)
+            raise myokit.SimulationError('simshim: non-finite initial state or constant')
         t0 = self._t
         tend = t0 + float(duration)
         if len(times) and (times[0] < t0 or times[-1] > tend):
